@@ -768,6 +768,7 @@ func runC11(r *Run) {
 			TTLs: []string{"none", "some", "all-levels"}[rng.Intn(3)], Workload: []string{"uniform", "recency", "frequency", "phases"}[rng.Intn(4)]}
 		cfg.Ops = 30*cfg.MaxSize + rng.Intn(60*cfg.MaxSize)
 		cfg.Shrink = rng.Intn(4) == 0
+		cfg.TargetFirst = i/r.NShards%2 == 1
 		cfg.Target = []string{"same", "same", "x2", "/2", "/7", "1"}[rng.Intn(6)]
 		switch cfg.Target {
 		case "same":
